@@ -10,6 +10,45 @@ def subs(ctx, n):
             yield from subs(ctx, k)
 
 
+def skeleton(ctx, n, counter):
+    """the same tree shape with whitespace-free, unique leaves and unique tag names: returns (tree, {name: add_ws})"""
+    core = ctx.core
+    if isinstance(n, core.Tag):
+        counter[0] += 1
+        nm = f"t{counter[0]}"
+        flags = {nm: n.add_ws}
+        kids = []
+        for k in n.children:
+            if isinstance(k, core.MetadataNode):
+                kids.append(k)
+                continue
+            t, f = skeleton(ctx, k, counter)
+            kids.append(t)
+            flags.update(f)
+        return core.Tag(nm, *kids, _add_ws=n.add_ws), flags
+    counter[0] += 1
+    return core.HTML(f"§{counter[0]}§"), {}
+
+
+def ws_placement_ok(out, flags):
+    """clause (d): every whitespace run of the layout touches the open or close tag of a whitespace-enabled tag"""
+    import re
+    toks = re.findall(r"</?t\d+[^>]*>|§\d+§|[ \n]+", out)
+    if "".join(toks) != out:
+        return False, "unexpected characters in skeleton rendering"
+    for i, t in enumerate(toks):
+        if t.strip() == "" and t != "":
+            near = []
+            for j in (i - 1, i + 1):
+                if 0 <= j < len(toks):
+                    m = re.match(r"</?(t\d+)", toks[j])
+                    if m:
+                        near.append(flags.get(m.group(1), False))
+            if not any(near):
+                return False, f"whitespace {t!r} at token {i} is not next to a whitespace-enabled tag"
+    return True, ""
+
+
 def run(R, job):
     ctx = ocommon.Ctx(R, job)
     core = R.core
@@ -45,6 +84,15 @@ def run(R, job):
                             if pair not in s:
                                 fails.append({"input": ctx.describe(t), "indent": ind, "eol": eol, "siblings": [ctx.describe(a), ctx.describe(b)],
                                               "expected_substring": pair, "observed": s})
+        # clause (d) on the skeleton of the same tree (any nesting, block inside inline included)
+        sk, flags = skeleton(ctx, t, [0])
+        try:
+            out = sk.get_html_string(indent=0, eol="\n")
+            ok, why = ws_placement_ok(out, flags)
+            if not ok:
+                fails.append({"input": ctx.describe(sk), "indent": 0, "eol": "\n", "observed": out, "expected": "layout whitespace only next to tags of whitespace-enabled elements: " + why})
+        except Exception as ex:
+            pass
         if len(fails) >= 3:
             break
     return {"checked": checked, "nontrivial": nontrivial, "failures": fails[:3], "samples": samples}
